@@ -206,6 +206,7 @@ def check(ctx):
     ctx.ob("SIB-pred", mi, "dtype str -> dtypes.string, other dtypes unchanged", mi.node, ok,
            "str means the string dtype with '' as missing value" if ok else "_map_input_dtype changed", nontrivial=False)
     # ------------------------------------------------------------- SIB-pred
+    from ..dataflow import defs_reaching as _defs
     std = repo.fn(f"{VEC}._std_to_np")
     ut = repo.fn("dataiter.util.unique_types")
     comp = [n for n in ast.walk(std.node) if isinstance(n, ast.ListComp) and isinstance(n.elt, ast.IfExp)]
@@ -231,6 +232,15 @@ def check(ctx):
            "exactly the substituted values are ignored when the type is inferred" if b_ok else
            f"type inference ignores values by {ign_t}, which is not the negation of the substitution predicate: inference and "
            f"substitution disagree about what is missing", clause="the inferred type")
+    # the inference looks at EVERY element: the filter iterates the parameter itself, not a prefix or sample of it
+    uit = ucomp[0].generators[0].iter
+    whole = isinstance(uit, ast.Name) and uit.id == ut.params[0] and all(d.kind == "param" for d in _defs(ut, uit.id, ucomp[0]))
+    ctx.ob("SIB-pred", ut, f"element types are collected over {norm(uit)}", ucomp[0], whole,
+           "every element of the sequence contributes its type" if whole else
+           f"unique_types scans {norm(uit)}"
+           + (f" = {[norm(d.value) for d in _defs(ut, uit.id, ucomp[0]) if d.value is not None]}" if isinstance(uit, ast.Name) else "")
+           + ", not the whole sequence: a sequence whose leading elements are all missing (or whose later elements have another type) "
+             "gets the missing value and dtype of the wrong type", clause="the missing value of the inferred type")
     facts = facts_at(std, comp[0])
     guards = [(k, t) for k, t in facts if " in seq" in t or "any(" in t or "None in" in t]
     ctx.ob("SIB-pred", std, "substitution is unconditional", comp[0], not guards,
@@ -244,7 +254,6 @@ def check(ctx):
     ctx.ob("SIB-pred", std, "the substituted sequence is the one converted", comp[0], ok,
            "np.array receives the sequence with missing values replaced" if ok else "the converted sequence is not the substituted one", nontrivial=False)
     # where the substituted value comes from
-    from ..dataflow import defs_reaching as _defs
     subst = comp[0].elt.body
     n_src = 0
     if isinstance(subst, ast.Name):
@@ -295,6 +304,28 @@ def check(ctx):
            "no values -> None; any str -> ''; all numeric -> NaN; all date-like -> NaT; otherwise None" if ok else
            "the decision list that picks the missing value from the element types no longer matches the statement",
            clause="NaN for numbers, NaT for dates and datetimes, the empty string for strings, None otherwise")
+    # an explicitly requested dtype is what np.array is given and is not converted afterwards
+    npa = repo.fn(f"{VEC}._np_array")
+    DT = npa.params[2] if len(npa.params) > 2 else "dtype"
+    n_conv = 0
+    for n in body_nodes(npa.node):
+        conv = None
+        if isinstance(n, ast.Assign) and isinstance(n.value, ast.Call) and isinstance(n.value.func, ast.Attribute) \
+                and n.value.func.attr in ("astype", "view") and n.value.args:
+            conv = n
+        elif isinstance(n, ast.Assign) and isinstance(n.targets[0], ast.Name) and n.targets[0].id == DT \
+                and not (isinstance(n.value, ast.Call) and isinstance(n.value.func, ast.Attribute) and n.value.func.attr == "_map_input_dtype"):
+            conv = n
+        if conv is None:
+            continue
+        n_conv += 1
+        fx = facts_at(npa, conv)
+        okc = ("T", f"{DT} is None") in fx or ("F", f"{DT} is not None") in fx
+        ctx.ob("SIB-pred", npa, f"{norm(conv)} only when no dtype was requested", conv, okc,
+               "the dtype is chosen by the library only where the caller left it open" if okc else
+               f"{norm(conv)} also runs when the caller requested a dtype: an explicit dtype (e.g. 'U8' in a dtype map) is replaced, so "
+               f"construction with an explicit dtype no longer gives that dtype", clause="with and without an explicit dtype")
+    ctx.count("dtype decisions of _np_array", n_conv, 2)
     vecmod = repo.modules["dataiter.vector"]
     tc = [n for n in vecmod.tree.body if isinstance(n, ast.Assign) and norm(n.targets[0]) == "TYPE_CONVERSIONS"]
     ok = bool(tc) and isinstance(tc[0].value, ast.Dict) and {norm(k): norm(v) for k, v in zip(tc[0].value.keys, tc[0].value.values)} == \
